@@ -26,6 +26,7 @@ CONSTANTS
   CommaSeparates = FALSE
   RejectDrops = FALSE
   MayAcceptedSplits = FALSE
+  ArgAliased = FALSE
   RejAt = {0, 1, 2}
   RejThen = 2
   RejEditAt = {0, 1, 2}
